@@ -132,14 +132,16 @@ class ControlFlowTransformer(converter.Base):
 
   def _get_block_basic_vars(self, modified, live_in, live_out):
     nonlocals = self.state[_Function].scope.nonlocals
+    globals_ = self.state[_Function].scope.globals
     basic_scope_vars = []
     for s in modified:
       if s.is_composite():
         # TODO(mdan): Raise an error when this happens for a TF scope.
         continue
       # Variables not live into or out of the scope are considered local to the
-      # scope.
-      if s in live_in or s in live_out or s in nonlocals:
+      # scope. Variables declared nonlocal or global remain observable after the
+      # function returns, whether or not the function reads them again.
+      if s in live_in or s in live_out or s in nonlocals or s in globals_:
         basic_scope_vars.append(s)
       continue
     return frozenset(basic_scope_vars)
